@@ -2,9 +2,9 @@ import H2V.Model.ConnProto
 /-
   Connection-level model, part 10 — the op interpreter: the user-side handles of the harness
   (`SendRequest` + clones, one `Slot` per request with its `SendStream` / `ResponseFuture` /
-  `RecvStream` / `FlowControl`), one pure `step` per op line, and the rendering of the answer line
+  `RecvStream` / `FlowControl` / `SendResponse`), one pure `step` per op line, and the rendering of the answer line
   (`r=… tx=… wk=… st=…`) in the format of `harness/src/conn.rs`.
-  `step` is pure: `World × op words → World × answer`.  Only the client role is modelled.
+  `step` is pure: `World × op words → World × answer`.  Both roles (`cn_new client|server`).
 -/
 namespace H2V.Model.Conn
 open H2V H2V.Model
@@ -371,8 +371,9 @@ def stepConn (w : World) (c : Conn) (ws : List String) : Option (World × String
   | ["cn_respond", k, status, eos] =>
     match getSlot w k, status.toNat? with
     | some (i, slot), some st =>
-      if st < 100 || st > 999 then none               -- `Response::builder().status(..)` refuses it: bad-op
+      if st > 65535 then none                         -- the harness parses a `u16`
       else if !slot.responder then some (finish w c "nohandle")
+      else if st < 100 || st > 999 then none          -- `Response::builder().status(..)` refuses it: bad-op
       else
         match c.streams.refSendResponse slot.key [field ":status" status] (eos == "1") with
         | (s, .error e) => some (finish w (withStreams c s) ("err:" ++ renderApiErr (.user e)))
@@ -385,8 +386,9 @@ def stepConn (w : World) (c : Conn) (ws : List String) : Option (World × String
   | ["cn_inform", k, status] =>
     match getSlot w k, status.toNat? with
     | some (_, slot), some st =>
-      if st < 100 || st > 999 then none
+      if st > 65535 then none
       else if !slot.responder then some (finish w c "nohandle")
+      else if st < 100 || st > 999 then none
       else if st ≥ 200 then some (finish w c ("err:" ++ renderApiErr (.user .invalidInformationalStatusCode)))
       else
         match c.streams.refSendInformationalHeaders slot.key [field ":status" status] with
@@ -618,6 +620,7 @@ def stepConn (w : World) (c : Conn) (ws : List String) : Option (World × String
       | (c, .ok _) => some (finish w c "ok")
       | (c, .error e) => some (finish w c ("err:" ++ renderApiErr (.user e)))
     | none => none
+  | "cn_note" :: _ => some (finish w c "ok")
   | ["cn_io"] =>
     let io := c.codec.io
     -- how much of the input h2 has pulled out of the transport depends on tokio-util's buffer
